@@ -234,19 +234,19 @@ class DataPath:
 
     def to_part_specs(self):
         parts = []
-        for i in self.parts:
-            try:
-                part_spec = i.condition.callable.kwargs["value"]
-            except KeyError:
-                if isinstance(i, MapOrListValue):
-                    part_spec = i.list_condition.callable.kwargs["value"]
-                elif i.CONTAINER_TYPE is Container.MAP:
-                    part_spec = {"type": "map_value"}
-                elif i.CONTAINER_TYPE is Container.LIST:
-                    part_spec = {"type": "list_value"}
-                else:
-                    raise RuntimeError(f"Cannot convert part to a part spec: {i!r}.")
-            parts.append(part_spec)
+        for part, part_simple in zip(self.parts, self.simplify()):
+            if not isinstance(part_simple, ContainerValue) and not part.label:
+                # equivalent to a primitive part
+                parts.append(part_simple)
+            else:
+                parts.append(part.to_spec())
+
+        if self.parts and not self.is_concrete and not any(
+            isinstance(i, dict) for i in parts
+        ):
+            # keep one part explicit so the path is not concrete on re-loading either:
+            parts[0] = self.parts[0].to_spec()
+
         return parts
 
     @classmethod
@@ -675,6 +675,17 @@ class ContainerValue:
         else:
             return cls(condition=condition, label=label)
 
+    def to_spec(self):
+        """Generate a specification that can be passed to `from_spec`."""
+        spec = {"type": self.SPEC_TYPE}
+        for cond_name in ("condition", "list_condition", "map_condition"):
+            cond = getattr(self, cond_name, None)
+            if cond is not None and not cond.is_null:
+                spec[cond_name] = cond.to_json_like()
+        if self.label:
+            spec["label"] = self.label
+        return spec
+
     def __truediv__(self, other):
         """Concatenating with other DictValue, ListValue or DataPath objects."""
         return DataPath(self, other)
@@ -685,6 +696,7 @@ class ContainerValue:
 
 class MapValue(ContainerValue):
     CONTAINER_TYPE = Container.MAP
+    SPEC_TYPE = "map_value"
 
     def __init__(self, key=None, value=None, condition=None, label=None):
         condition = get_container_value_condition(
@@ -715,6 +727,7 @@ class MapValue(ContainerValue):
 
 class ListValue(ContainerValue):
     CONTAINER_TYPE = Container.LIST
+    SPEC_TYPE = "list_value"
 
     def __init__(self, index=None, value=None, condition=None, label=None):
         condition = get_container_value_condition(
@@ -745,6 +758,7 @@ class MapOrListValue(ContainerValue):
     """To represent a value within a Map or a List."""
 
     CONTAINER_TYPE = Container.CONTAINER
+    SPEC_TYPE = "map_or_list_value"
 
     def __init__(
         self,
